@@ -115,7 +115,7 @@ def build_go():
         return
     # the harness module points at REPO through a replace directive and inherits REPO's own replaces
     gomod = os.path.join(hdir, "go.mod")
-    txt = open(gomod).read()
+    txt = _read(gomod) or ""      # go.mod / go.sum are generated (gitignored)
     reps = re.findall(r"^replace\s+(\S+\s+=>\s+\S+\s+\S+)\s*$", open(os.path.join(REPO, "go.mod")).read(), re.M)
     new = ("module verif/harness\n\ngo 1.25.5\n\nrequire github.com/ysugimoto/falco/v2 v2.0.0\n\n"
            "replace github.com/ysugimoto/falco/v2 => %s\n" % REPO
